@@ -1295,8 +1295,9 @@ func (e *enc) loopHead(li *loopInfo, st *State) {
 					continue
 				}
 				short := e.calleeShort(cc)
+				thisSite := fmt.Sprintf("%s#%d", short, e.siteOrdinal(ins, short))
 				for site, clauses := range e.c.calls {
-					if !strings.HasPrefix(site, short+"#") {
+					if site != thisSite {
 						continue
 					}
 					for _, cl := range clauses {
